@@ -146,12 +146,15 @@ func (c *VerifierChip) Verify(
 	verifierData variables.VerifierOnlyCircuitData,
 ) {
 	c.rangeCheckProof(proof)
+	verifEvent(c.api, "phase", "sweep_done")
 
 	// Generate the parts of the witness that is for the plonky2 proof input
 	publicInputsHash := c.GetPublicInputsHash(publicInputs)
 	proofChallenges := c.GetChallenges(proof, publicInputsHash, verifierData)
+	verifEvent(c.api, "phase", "challenges_done")
 
 	c.plonkChip.Verify(proofChallenges, proof.Openings, publicInputsHash)
+	verifEvent(c.api, "phase", "plonk_done")
 
 	initialMerkleCaps := []variables.FriMerkleCap{
 		verifierData.ConstantSigmasCap,
